@@ -1172,6 +1172,22 @@ package cdi
 //@   requires c != nil && CacheInit(c)
 //@   ghostwrites maxP, cnt, first, scanMark
 //@   ensures[C13] implies(!old(c.autoRefresh), ErrInv(c.errors) && (err == nil) == forall(k, string, true, !has(c.errors, k)))
+// C13: GetErrors hands out every recorded error: the Spec file errors as they are, one list per failed directory.
+//@ func (c *Cache) GetErrors() (r map[string][]error)
+//@   requires c != nil
+//@   pure
+//@   ensures[C13] r != nil && fresh(r)
+//@   ensures[C13] forall(k, string, true, implies(has(c.dirErrors, k), has(r, k) && len(r[k]) == 1 && r[k][0] == c.dirErrors[k]))
+//@   ensures[C13] forall(k, string, true, implies(has(c.errors, k) && !has(c.dirErrors, k), has(r, k) && r[k] == c.errors[k]))
+//@   ensures[C13] forall(k, string, true, implies(has(r, k), has(c.errors, k) || has(c.dirErrors, k)))
+//@   loop 1 invariant errors != nil && fresh(errors)
+//@   loop 1 invariant forall(k, string, true, iff(has(errors, k), has(#seen, k))) && forall(k, string, has(#seen, k), errors[k] == c.errors[k])
+//@   loop 1 invariant forall(k, string, has(#seen, k), has(c.errors, k))
+//@   loop 2 invariant errors != nil && fresh(errors)
+//@   loop 2 invariant forall(k, string, has(#seen, k), has(c.dirErrors, k))
+//@   loop 2 invariant forall(k, string, true, iff(has(errors, k), has(c.errors, k) || has(#seen, k)))
+//@   loop 2 invariant forall(k, string, has(#seen, k), len(errors[k]) == 1 && errors[k][0] == c.dirErrors[k] && own(errors[k]) <= allocNow())
+//@   loop 2 invariant forall(k, string, has(c.errors, k) && !has(#seen, k), errors[k] == c.errors[k])
 //@ func (c *Cache) GetDevice(device string) (r *Device)
 //@   requires c != nil && CacheInit(c)
 //@   ghostwrites maxP, cnt, first, scanMark
